@@ -26,6 +26,7 @@ type e2SchedArgs struct {
 	AtEnd   []string    `json:"at_end"`   // oracles at the end (after closure): log converge applied issued reference snapshots onedoc quiescent
 	NoClose bool        `json:"no_close"` // do not run closing syncs (realtime convergence must happen by itself)
 	Policy  schedPolicy `json:"policy"`   // default schedule around which deviations are counted
+	GiveUps int         `json:"give_ups"` // how often a caller may give up (cancel its context) in the middle of a push-pull call
 }
 
 // rawRequest performs the request of action a without any harness-side waiting (it runs inside an activity).
@@ -94,6 +95,25 @@ func init() {
 			m := newE2(pp)
 			x.sched = m.sys.Sched
 			x.policy = sa.Policy
+			if sa.GiveUps > 0 {
+				x.giveUps = sa.GiveUps
+				x.inflight = func() []string {
+					var out []string
+					for _, c := range m.cls {
+						if c.h.Stub.Inflight() {
+							out = append(out, c.h.Name)
+						}
+					}
+					return out
+				}
+				x.giveUp = func(name string) {
+					for _, c := range m.cls {
+						if c.h.Name == name {
+							c.h.Stub.GiveUp()
+						}
+					}
+				}
+			}
 			// the lock registry's sync.Map operations are scheduling points too
 			allSync := sa.E2.SyncType == "realtime"
 			vsync.Hook = func(p string) {
